@@ -7,6 +7,7 @@ import (
 	"github.com/verily-src/fhirpath-go/fhirpath/system"
 	"github.com/verily-src/fhirpath-go/internal/fhir"
 	"github.com/verily-src/fhirpath-go/internal/protofields"
+	"google.golang.org/protobuf/reflect/protoreflect"
 )
 
 var (
@@ -70,6 +71,22 @@ func TypeOf(input any) (TypeSpecifier, error) {
 	name := string(item.ProtoReflect().Descriptor().Name())
 	if protofields.IsCodeField(item) {
 		return TypeSpecifier{FHIR, "code"}, nil
+	}
+	// A message declared inside another message is a nested component: a
+	// BackboneElement inside a resource, a plain Element inside a datatype.
+	descriptor := item.ProtoReflect().Descriptor()
+	if outer, nested := descriptor.Parent().(protoreflect.MessageDescriptor); nested {
+		for {
+			next, ok := outer.Parent().(protoreflect.MessageDescriptor)
+			if !ok {
+				break
+			}
+			outer = next
+		}
+		if protofields.IsValidResourceType(string(outer.Name())) {
+			return TypeSpecifier{FHIR, "BackboneElement"}, nil
+		}
+		return TypeSpecifier{FHIR, "Element"}, nil
 	}
 	return TypeSpecifier{FHIR, primitiveToLowercase(name)}, nil
 }
